@@ -16,7 +16,7 @@ ID = 'C05'
 
 MANIFEST = dict(
     technique='explicit-state enumeration of the cost-matrix input tree x blank index x all label sequences; real force_align/align_text vs brute force over all C^T symbol paths',
-    text='Bounded exhaustive: every cost matrix with T <= 4 (quick) / 5 (thorough) rows over an 8-row alphabet (ties, +inf, fractional) for C=3 and T <= 3/4 over 6 rows for C=4, every blank index, every label sequence of length 1..T+1 (repeats included) and sequences containing the blank. Validity, optimality, the exact feasibility boundary and the most-confident-frame rule are checked against enumeration of all alignments.',
+    text='Bounded exhaustive: every cost matrix with T <= 4 (quick) / 5 (thorough) rows over an 8-row alphabet (ties, +inf, fractional) for C=3 and T <= 3/4 over 6 rows for C=4, every blank index, every label sequence of length 1..T+1 (repeats included) and sequences containing the blank; the same for float32 and integer cost matrices up to T = 3 / 4. Validity, optimality, the exact feasibility boundary and the most-confident-frame rule are checked against enumeration of all alignments.',
     note='Costs outside the alphabet and T above the bound are not explored; ties accept any optimal alignment; all-infinite alignments may either fail or be returned.',
     ref='3/C05')
 INF = float('inf')
@@ -28,18 +28,21 @@ ROWS3 = [
     [INF, 1.0, 0.2], [INF, INF, 0.3],                      # impossible symbols
     [0.25, 1.75, 0.75],                                    # fractional, different order
 ]
+ROWS3I = [[1, 5, 9], [5, 1, 9], [9, 5, 1], [2, 2, 2], [1, 1, 7], [3, 8, 2]]       # integer costs (matrices of integer dtype)
 ROWS4 = [
     [0.1, 2.0, 3.0, 1.5], [2.0, 0.1, 3.0, 1.5], [3.0, 2.0, 0.1, 1.5], [2.0, 2.5, 3.0, 0.1],
     [1.0, 1.0, 1.0, 1.0], [INF, 0.5, 0.5, 2.0],
 ]
 BOUNDS = {
-    'quick': dict(T3=4, T4=3),
-    'thorough': dict(T3=5, T4=4),
+    'quick': dict(T3=4, T4=3, Tdtype=3),
+    'thorough': dict(T3=5, T4=4, Tdtype=4),
 }
 BOUNDS['replay'] = BOUNDS['quick']
 
 
-def rows_for(C):
+def rows_for(C, dtype='f64'):
+    if dtype == 'i64':
+        return ROWS3I
     return ROWS3 if C == 3 else ROWS4
 
 
@@ -60,6 +63,10 @@ def shards(tier):
             else:   # split the level by its first two rows
                 for p in itertools.product(range(R), repeat=2):
                     out.append({'C': C, 'T': t, 'prefix': list(p)})
+    # the same search on matrices of other dtypes (float32, int64): unusual but legal inputs
+    for dt in ('f32', 'i64'):
+        for t in range(1, b['Tdtype'] + 1):
+            out.append({'C': 3, 'T': t, 'prefix': [], 'dtype': dt})
     return out
 
 
@@ -68,11 +75,15 @@ def run_shard(shard, ctx, tier):
     import sys
     mod = sys.modules[__name__]
     C, T, prefix = shard['C'], shard['T'], shard['prefix']
-    R = len(rows_for(C))
+    dt = shard.get('dtype', 'f64')
+    R = len(rows_for(C, dt))
     for rest in itertools.product(range(R), repeat=T - len(prefix)):
         rows = prefix + list(rest)
         for blank in range(C):
-            guarded_check(mod, {'C': C, 'rows': rows, 'blank': blank}, ctx)
+            case = {'C': C, 'rows': rows, 'blank': blank}
+            if dt != 'f64':
+                case['dtype'] = dt
+            guarded_check(mod, case, ctx)
 
 
 def collapse(path, blank):
@@ -111,14 +122,17 @@ def label_space(C, T, blank):
 def check_case(case, ctx):
     from pero_ocr.core.force_alignment import force_align, align_text
     C, rows, blank = case['C'], case['rows'], case['blank']
-    RA = rows_for(C)
+    dt = case.get('dtype', 'f64')
+    RA = rows_for(C, dt)
     M = [RA[i] for i in rows]
     T = len(M)
-    A = np.asarray(M, dtype=float)
+    A = np.asarray(M, dtype={'f64': np.float64, 'f32': np.float32, 'i64': np.int64}[dt])
     best = brute(M, blank)
-    ctx.state((C, tuple(rows), blank))
+    ctx.state((C, tuple(rows), blank, dt))
     labsets = [case['labels']] if 'labels' in case else label_space(C, T, blank)
-    K = f'{ID}/C{C}'
+    K = f'{ID}/C{C}' + ('' if dt == 'f64' else f'/{dt}')
+    if dt != 'f64':
+        ctx.tag('non-float64-cost-matrices')
     for labels in labsets:
         sub = dict(case, labels=labels)
         key = tuple(labels)
@@ -210,5 +224,6 @@ def describe(tier):
                         'ties: any minimum-cost alignment and any most-confident frame is accepted',
                         'per-frame confidence = max over symbols of the frame (as stated: "where the network is most confident")'],
         'min_nontrivial': 100,
-        'required_tags': ['repeated-label-aligned', 'multi-frame-char-with-distinct-confidences', 'only-infinite-alignments'],
+        'required_tags': ['repeated-label-aligned', 'multi-frame-char-with-distinct-confidences', 'only-infinite-alignments',
+                          'non-float64-cost-matrices'],
     }
